@@ -19,7 +19,7 @@ from ..state import State, Obj, IntV, PtrV, NULL, MAXLEN
 from ..terms import Lin, ZERO
 from . import own
 from .c08 import string_scene, SliceHooks
-from .common import short, fn_loc
+from .common import short, fn_loc, robust, congruent
 
 LEVEL = 'other'
 EXPLANATION = ('per-iteration step summaries of the five searching loops by abstract interpretation with the search primitive as a symbol; '
@@ -78,24 +78,6 @@ class PartHooks(SliceHooks):
         if d.startswith('ST::string::~string') or d.startswith('ST::string::string(ST::string&&)'):
             return [(st, None)]
         return None
-
-
-def strip_mod(l, bits):
-    """Replace mod(x, b) / smod(x, b) atoms with b >= bits by x: valid modulo 2^bits."""
-    out = Lin.const(l.c)
-    for a, k in l.t:
-        if isinstance(a, tuple) and a[0] in ('mod', 'smod') and a[2] >= bits and isinstance(a[1], Lin):
-            out = out + strip_mod(a[1], bits).scale(k)
-        else:
-            out = out + Lin.atom(a, k)
-    return out
-
-
-def congruent(st, a, b, bits):
-    d = strip_mod(a - b, bits)
-    if not d.t:
-        return d.c % (1 << bits) == 0
-    return st.is_eq0(d) is True
 
 
 def find(m, F, dem):
@@ -294,8 +276,8 @@ def replace(run, m, F, E, L):
             continue
         bv_off, nstart = nxt
         if s2.is_eq0(nstart - mt[1] - fl) is not True:
-            env = s2.find_model([nstart - mt[1] - fl], lambda v: v[0] != 0)
-            if env is not None or s2.is_eq0(nstart - mt[1] - fl) is False:
+            env = s2.find_model([nstart - mt[1] - fl], lambda v: v[0] != 0) if robust([nstart - mt[1] - fl]) else None
+            if env is not None or (s2.is_eq0(nstart - mt[1] - fl) is False and robust([nstart - mt[1] - fl])):
                 p2.append('the scan at line %d resumes at match%+r, the pattern is from.size() long%s' %
                           (se[0][1].line, nstart - mt[1], '; witness ' + own.fmt_env(env) if env else ''))
             else:
